@@ -1,15 +1,277 @@
 /-
-C07 — virtual_size equals the declared size.
+C07 — virtual_size equals the disk size the image declares.
 
-PLACEHOLDER written by the harness builder so that `./check C07` can run its
-correspondence and failing-input search; the coordinator's theorem file replaces it.
-Nothing here is a C07 obligation.
+Decoder round trips for every representable value, then per format: for every stream that is
+well-formed in the stated sense and every chunking, `virtual_size` after the whole stream is the
+declared size; and it is 0 for as long as the size-carrying structure has not been captured.
+This file covers the eight formats whose regions are fixed at initialisation.
 -/
-import OsloModel.Wrapper
+import OsloProofs.Props.C01
 namespace Oslo.Insp
 
-/-- placeholder: every format of the model has an inspector, i.e. the generated table of
-    registered safety checks is non-empty for each of them (`__init__` does not raise) -/
-theorem placeholder_init_formats : ∀ f ∈ Fmt.all, (Insp.init f).isSome = true := by decide
+/-- big-endian / little-endian encoders (what an image writer does) -/
+def encodeLE : Nat → Nat → Bytes
+  | 0, _ => []
+  | k + 1, n => UInt8.ofNat (n % 256) :: encodeLE k (n / 256)
+
+def encodeBE (k n : Nat) : Bytes := (encodeLE k n).reverse
+
+theorem le_encode (k : Nat) : ∀ n, n < 256 ^ k → leNat (encodeLE k n) = n := by
+  induction k with
+  | zero => intro n h; simp at h; simp [encodeLE, leNat, h]
+  | succ k ih =>
+    intro n h
+    have hk : n / 256 < 256 ^ k := by
+      rw [Nat.pow_succ] at h
+      exact Nat.div_lt_of_lt_mul (by omega)
+    have := ih (n / 256) hk
+    simp only [encodeLE, leNat, List.foldr_cons] at this ⊢
+    rw [this]
+    have : (UInt8.ofNat (n % 256)).toNat = n % 256 := by
+      simp [UInt8.toNat_ofNat']
+    rw [this]; omega
+
+theorem lemma_beNat_reverse (l : Bytes) : beNat l.reverse = leNat l := by
+  induction l with
+  | nil => rfl
+  | cons a l ih =>
+    simp only [beNat, leNat, List.reverse_cons, List.foldl_append, List.foldl_cons, List.foldl_nil,
+      List.foldr_cons] at ih ⊢
+    rw [ih]; omega
+
+theorem be_encode (k n : Nat) (h : n < 256 ^ k) : beNat (encodeBE k n) = n := by
+  rw [encodeBE, lemma_beNat_reverse, le_encode k n h]
+
+theorem lemma_encodeLE_length (k n : Nat) : (encodeLE k n).length = k := by
+  induction k generalizing n with
+  | zero => rfl
+  | succ k ih => simp [encodeLE, ih]
+
+theorem lemma_slice_sliceOf0 (s : Bytes) (L a e : Nat) (h : e ≤ L) : slice (sliceOf s 0 L) a e = slice s a e := by
+  simp only [slice, sliceOf, List.drop_zero, List.take_take]
+  congr 2; omega
+
+theorem lemma_slice_sliceOf (s : Bytes) (o L a e : Nat) (h : e ≤ L) :
+    slice (sliceOf s o L) a e = slice s (o + a) (o + e) := by
+  apply List.ext_getElem?
+  intro i
+  simp only [slice, sliceOf, List.getElem?_drop, List.getElem?_take]
+  by_cases h1 : a + i < e
+  · have h2 : a + i < L := by omega
+    simp [h1, h2, Nat.add_assoc]
+  · have h3 : ¬ (o + a + i < o + e) := by omega
+    simp [h1, h3]
+
+theorem lemma_slice_slice (x : Bytes) (a e a' e' : Nat) (h : a + e' ≤ e) :
+    slice (slice x a e) a' e' = slice x (a + a') (a + e') := by
+  apply List.ext_getElem?
+  intro i
+  simp only [slice, List.getElem?_drop, List.getElem?_take]
+  by_cases h1 : a' + i < e'
+  · have h2 : a + (a' + i) < e := by omega
+    have h3 : a + a' + i < a + e' := by omega
+    simp [h1, h2, h3, Nat.add_assoc]
+  · have h3 : ¬ (a + a' + i < a + e') := by omega
+    simp [h1, h3]
+
+theorem lemma_take_sliceOf0 (s : Bytes) (L k : Nat) (h : k ≤ L) : (sliceOf s 0 L).take k = s.take k := by
+  simp only [sliceOf, List.drop_zero, List.take_take]
+  congr 1; omega
+
+theorem lemma_encodeBE_length (k n : Nat) : (encodeBE k n).length = k := by
+  simp [encodeBE, lemma_encodeLE_length]
+
+/-- **vsize_vhd** — VHD footer size field (big-endian, offset 40), any 64-bit value -/
+theorem vsize_vhd (s0 : Insp) (h0 : Insp.init .vhd = some s0) (chunks : List Bytes) (n : Nat)
+    (hn : n < 2 ^ 64) (hlen : 512 ≤ chunks.flatten.length)
+    (hmagic : chunks.flatten.take 8 = ascii "conectix")
+    (hsize : slice chunks.flatten 40 48 = encodeBE 8 n) :
+    virtualSize (runChunks s0 chunks).1 = .ok (n : Int) := by
+  rw [run_plain_eq_spec .vhd rfl s0 h0]
+  unfold Insp.init at h0
+  split at h0
+  · simp at h0
+  · simp only [Option.some.injEq] at h0
+    subst h0
+    generalize chunks.flatten = s at *
+    have hd : (sliceOf s 0 512).length = 512 := by rw [lemma_sliceOf_length]; omega
+    simp only [virtualSize, formatMatch, Insp.region, lookupR, Fmt.initRegions, Gen.vhd_regions, specRegions,
+      if_true, bind, Except.bind, pure, Except.pure, Region.complete, hd, decide_true, Bool.not_true,
+      Bool.false_eq_true, if_false]
+    have hl8 : (ascii "conectix").length = 8 := by decide
+    simp only [startsWith, hl8, lemma_take_sliceOf0 s 512 8 (by omega), hmagic, BEq.rfl, Bool.not_true,
+      Bool.false_eq_true, if_false, lemma_slice_sliceOf0 s 512 40 48 (by omega), hsize, unpackBE,
+      lemma_encodeBE_length, if_true, be_encode 8 n (by simpa using hn)]
+
+/-- before the 512-byte footer copy is complete the VHD size is unknown (0) -/
+theorem vsize_zero_until_captured_vhd (s0 : Insp) (h0 : Insp.init .vhd = some s0) (chunks : List Bytes)
+    (hlen : chunks.flatten.length < 512) : virtualSize (feed s0 chunks).1 = .ok 0 := by
+  rw [feed_plain_eq_spec .vhd rfl s0 h0]
+  unfold Insp.init at h0
+  split at h0
+  · simp at h0
+  · simp only [Option.some.injEq] at h0
+    subst h0
+    generalize chunks.flatten = s at *
+    have hd : ¬ (512 = (sliceOf s 0 512).length) := by rw [lemma_sliceOf_length]; omega
+    simp [virtualSize, Insp.region, lookupR, Fmt.initRegions, Gen.vhd_regions, specRegions,
+      bind, Except.bind, pure, Except.pure, Region.complete, hd]
+
+/-- **vsize_qcow2** — qcow2 header size field (big-endian, offset 24), any 64-bit value -/
+theorem vsize_qcow2 (s0 : Insp) (h0 : Insp.init .qcow2 = some s0) (chunks : List Bytes) (n : Nat)
+    (hn : n < 2 ^ 64) (hlen : 512 ≤ chunks.flatten.length)
+    (hmagic : slice chunks.flatten 0 4 = qcowMagic)
+    (hsize : slice chunks.flatten 24 32 = encodeBE 8 n) :
+    virtualSize (runChunks s0 chunks).1 = .ok (n : Int) := by
+  rw [run_qcow_eq_spec s0 h0]
+  unfold Insp.init at h0
+  split at h0
+  · simp at h0
+  · simp only [Option.some.injEq] at h0
+    subst h0
+    generalize chunks.flatten = s at *
+    have hd : (sliceOf s 0 512).length = 512 := by rw [lemma_sliceOf_length]; omega
+    have e1 : slice (slice (sliceOf s 0 512) 0 32) 0 4 = slice s 0 4 := by
+      simp only [slice, sliceOf, List.drop_zero, List.take_take]; congr 1
+    have e2 : slice (slice (sliceOf s 0 512) 0 32) 24 32 = slice s 24 32 := by
+      simp only [slice, sliceOf, List.drop_zero, List.take_take]; congr 2
+    simp only [virtualSize, Gen.qcow2_regions, specRegions, qinfoR, Region.complete, hd, decide_true,
+      Bool.false_eq_true, if_false, Bool.true_and, e1, e2, hmagic, BEq.rfl, if_true, hsize,
+      be_encode 8 n (by simpa using hn)]
+
+/-- before the 512-byte header region is complete the qcow2 size is unknown (0) -/
+theorem vsize_zero_until_captured_qcow2 (s0 : Insp) (h0 : Insp.init .qcow2 = some s0) (chunks : List Bytes)
+    (hlen : chunks.flatten.length < 512) : virtualSize (feed s0 chunks).1 = .ok 0 := by
+  rw [feed_qcow_eq_spec s0 h0]
+  unfold Insp.init at h0
+  split at h0
+  · simp at h0
+  · simp only [Option.some.injEq] at h0
+    subst h0
+    generalize chunks.flatten = s at *
+    have hd : ¬ (512 = (sliceOf s 0 512).length) := by rw [lemma_sliceOf_length]; omega
+    simp [virtualSize, Gen.qcow2_regions, specRegions, qinfoR, Region.complete, hd]
+
+/-- **vsize_vdi** — VDI disk size (little-endian, offset 0x170), any 64-bit value -/
+theorem vsize_vdi (s0 : Insp) (h0 : Insp.init .vdi = some s0) (chunks : List Bytes) (n : Nat)
+    (hn : n < 2 ^ 64) (hlen : 512 ≤ chunks.flatten.length)
+    (hsig : slice chunks.flatten 0x40 0x44 = encodeLE 4 0xbeda107f)
+    (hsize : slice chunks.flatten 0x170 0x178 = encodeLE 8 n) :
+    virtualSize (runChunks s0 chunks).1 = .ok (n : Int) := by
+  rw [run_plain_eq_spec .vdi rfl s0 h0]
+  unfold Insp.init at h0
+  split at h0
+  · simp at h0
+  · simp only [Option.some.injEq] at h0
+    subst h0
+    generalize chunks.flatten = s at *
+    have hd : (sliceOf s 0 512).length = 512 := by rw [lemma_sliceOf_length]; omega
+    have hsg : leNat (encodeLE 4 0xbeda107f) = 0xbeda107f := le_encode 4 _ (by decide)
+    simp only [virtualSize, formatMatch, Insp.region, lookupR, Fmt.initRegions, Gen.vdi_regions, specRegions,
+      if_true, bind, Except.bind, pure, Except.pure, Region.complete, hd, decide_true, Bool.not_true,
+      Bool.false_eq_true, if_false, lemma_slice_sliceOf0 s 512 0x40 0x44 (by omega),
+      lemma_slice_sliceOf0 s 512 0x170 0x178 (by omega), hsig, hsize, unpackLE, lemma_encodeLE_length,
+      hsg, BEq.rfl, le_encode 8 n (by simpa using hn)]
+
+theorem vsize_zero_until_captured_vdi (s0 : Insp) (h0 : Insp.init .vdi = some s0) (chunks : List Bytes)
+    (hlen : chunks.flatten.length < 512) : virtualSize (feed s0 chunks).1 = .ok 0 := by
+  rw [feed_plain_eq_spec .vdi rfl s0 h0]
+  unfold Insp.init at h0
+  split at h0
+  · simp at h0
+  · simp only [Option.some.injEq] at h0
+    subst h0
+    generalize chunks.flatten = s at *
+    have hd : ¬ (512 = (sliceOf s 0 512).length) := by rw [lemma_sliceOf_length]; omega
+    simp [virtualSize, Insp.region, lookupR, Fmt.initRegions, Gen.vdi_regions, specRegions,
+      bind, Except.bind, pure, Except.pure, Region.complete, hd]
+
+/-- **vsize_raw / vsize_gpt** — the stream length, whatever the bytes -/
+theorem vsize_raw (s0 : Insp) (h0 : Insp.init .raw = some s0) (chunks : List Bytes) :
+    virtualSize (runChunks s0 chunks).1 = .ok (chunks.flatten.length : Int) := by
+  rw [run_plain_eq_spec .raw rfl s0 h0]
+  unfold Insp.init at h0
+  split at h0
+  · simp at h0
+  · simp only [Option.some.injEq] at h0; subst h0; rfl
+
+theorem vsize_gpt (s0 : Insp) (h0 : Insp.init .gpt = some s0) (chunks : List Bytes) :
+    virtualSize (runChunks s0 chunks).1 = .ok (chunks.flatten.length : Int) := by
+  rw [run_plain_eq_spec .gpt rfl s0 h0]
+  unfold Insp.init at h0
+  split at h0
+  · simp at h0
+  · simp only [Option.some.injEq] at h0; subst h0; rfl
+
+/-- **vsize_luks** — stream length minus payload offset (big-endian sectors at offset 104) times 512 -/
+theorem vsize_luks (s0 : Insp) (h0 : Insp.init .luks = some s0) (chunks : List Bytes) (po : Nat)
+    (hpo : po < 2 ^ 32) (hlen : 108 ≤ chunks.flatten.length)
+    (hoff : slice chunks.flatten 104 108 = encodeBE 4 po) :
+    virtualSize (runChunks s0 chunks).1 = .ok ((chunks.flatten.length : Int) - (po : Int) * 512) := by
+  rw [run_plain_eq_spec .luks rfl s0 h0]
+  unfold Insp.init at h0
+  split at h0
+  · simp at h0
+  · simp only [Option.some.injEq] at h0
+    subst h0
+    generalize chunks.flatten = s at *
+    have hd : (slice (sliceOf s 0 592) 0 108).length = 108 := by
+      simp [slice, sliceOf]; omega
+    have e1 : slice (slice (sliceOf s 0 592) 0 108) 104 108 = slice s 104 108 := by
+      simp only [slice, sliceOf, List.drop_zero, List.take_take]; congr 2
+    simp only [virtualSize, luksHeader, Insp.region, lookupR, Fmt.initRegions, Gen.luks_regions, specRegions,
+      if_true, bind, Except.bind, pure, Except.pure, hd, ne_eq, not_true_eq_false, if_false, e1, hoff,
+      be_encode 4 po (by simpa using hpo)]
+
+/-- **vsize_iso** — volume blocks (little-endian half, offset 80) times logical block size
+    (little-endian half, offset 128) of the primary volume descriptor at 32 KiB -/
+theorem vsize_iso (s0 : Insp) (h0 : Insp.init .iso = some s0) (chunks : List Bytes) (blocks bs : Nat)
+    (hb : blocks < 2 ^ 32) (hbs : bs < 2 ^ 16) (hlen : 34816 ≤ chunks.flatten.length)
+    (hident : slice chunks.flatten 32769 32774 = ascii "CD001")
+    (htype : chunks.flatten[32768]? = some 1)
+    (hblocks : slice chunks.flatten 32848 32852 = encodeLE 4 blocks)
+    (hbsz : slice chunks.flatten 32896 32898 = encodeLE 2 bs) :
+    virtualSize (runChunks s0 chunks).1 = .ok ((blocks * bs : Nat) : Int) := by
+  rw [run_plain_eq_spec .iso rfl s0 h0]
+  unfold Insp.init at h0
+  split at h0
+  · simp at h0
+  · simp only [Option.some.injEq] at h0
+    subst h0
+    generalize chunks.flatten = s at *
+    have hd1 : (sliceOf s 0 32768).length = 32768 := by rw [lemma_sliceOf_length]; omega
+    have hd2 : (sliceOf s 32768 2048).length = 2048 := by rw [lemma_sliceOf_length]; omega
+    have e1 : slice (sliceOf s 32768 2048) 1 6 = slice s 32769 32774 :=
+      lemma_slice_sliceOf s 32768 2048 1 6 (by omega)
+    have e2 : slice (slice (sliceOf s 32768 2048) 80 88) 0 4 = slice s 32848 32852 := by
+      rw [lemma_slice_slice _ 80 88 0 4 (by omega), lemma_slice_sliceOf s 32768 2048 80 84 (by omega)]
+    have e3 : slice (slice (sliceOf s 32768 2048) 128 132) 0 2 = slice s 32896 32898 := by
+      rw [lemma_slice_slice _ 128 132 0 2 (by omega), lemma_slice_sliceOf s 32768 2048 128 130 (by omega)]
+    have e4 : (sliceOf s 32768 2048)[0]? = s[32768]? := by
+      simp [sliceOf, List.getElem?_take, List.getElem?_drop]
+    simp only [virtualSize, formatMatch, Insp.complete, Insp.region, lookupR, Fmt.initRegions, Gen.iso_regions,
+      specRegions, List.all_cons, List.all_nil, Region.complete, hd1, hd2, decide_true, Bool.false_eq_true,
+      if_false, Bool.and_self, Bool.not_true, bind, Except.bind, pure, Except.pure, if_true, e1, hident,
+      BEq.rfl, Bool.true_or, e4, htype, e2, e3, hblocks, hbsz, unpackLE, lemma_encodeLE_length,
+      le_encode 4 blocks (by simpa using hb), le_encode 2 bs (by simpa using hbs)]
+    simp [e1, hident, e4, htype, e2, e3, hblocks, hbsz, lemma_encodeLE_length,
+      le_encode 4 blocks (by simpa using hb), le_encode 2 bs (by simpa using hbs)]
+
+theorem vsize_zero_until_captured_iso (s0 : Insp) (h0 : Insp.init .iso = some s0) (chunks : List Bytes)
+    (hlen : chunks.flatten.length < 34816) : virtualSize (feed s0 chunks).1 = .ok 0 := by
+  rw [feed_plain_eq_spec .iso rfl s0 h0]
+  unfold Insp.init at h0
+  split at h0
+  · simp at h0
+  · simp only [Option.some.injEq] at h0
+    subst h0
+    generalize chunks.flatten = s at *
+    have hd2 : ¬ (2048 = (sliceOf s 32768 2048).length) := by rw [lemma_sliceOf_length]; omega
+    simp [virtualSize, Insp.complete, Fmt.initRegions, Gen.iso_regions, specRegions, Region.complete, hd2,
+      pure, Except.pure]
+
+/-! non-vacuity: encoders produce what the decoders read, on extreme values -/
+example : beNat (encodeBE 8 (2 ^ 64 - 1)) = 2 ^ 64 - 1 ∧ leNat (encodeLE 8 (2 ^ 63)) = 2 ^ 63 ∧
+    encodeBE 4 1 = [0, 0, 0, 1] ∧ encodeLE 2 2048 = [0, 8] := by decide
 
 end Oslo.Insp
